@@ -39,6 +39,10 @@ type SliceDotsMatcher struct {
 
 	// Positions at which dots were found.
 	Dots []token.Pos // inv: len(dots) = len(sections) - 1
+
+	// Whether the sections are free of metavariables: whether they match
+	// at some position then does not depend on what was matched before.
+	pure bool
 }
 
 func (c *matcherCompiler) compileSliceDots(items reflect.Value, isDots func(ast.Node) bool) Matcher {
@@ -49,6 +53,8 @@ func (c *matcherCompiler) compileSliceDots(items reflect.Value, isDots func(ast.
 		sections [][]Matcher
 		current  []Matcher
 		dots     []token.Pos
+
+		metavars = c.metavars
 	)
 	for i := 0; i < items.Len(); i++ {
 		item := items.Index(i)
@@ -70,7 +76,11 @@ func (c *matcherCompiler) compileSliceDots(items reflect.Value, isDots func(ast.
 		return SliceMatcher{Items: sections[0]}
 	}
 
-	return SliceDotsMatcher{Sections: sections, Dots: dots}
+	return SliceDotsMatcher{
+		Sections: sections,
+		Dots:     dots,
+		pure:     c.metavars == metavars,
+	}
 }
 
 // Match matches
@@ -86,20 +96,37 @@ func (m SliceDotsMatcher) Match(got reflect.Value, d data.Data, r Region) (data.
 		return d, false
 	}
 
-	return m.matchSections(1, gotItems, d, r, idx)
+	var failed map[[2]int]struct{}
+	if m.pure {
+		failed = make(map[[2]int]struct{})
+	}
+	return m.matchSections(1, gotItems, d, r, idx, failed)
 }
 
 // matchSections matches m.Sections[k:] against got[idx:]. Each section is
 // tried at successive positions, left to right, and a position is kept only
 // if the remaining sections (and the end of the list) can be matched after
 // it, so an early choice never rules out a match that a later one allows.
-func (m SliceDotsMatcher) matchSections(k int, got []reflect.Value, d data.Data, r Region, idx int) (data.Data, bool) {
+//
+// failed, if not nil, records the (k, idx) for which this is known to fail, so
+// that the search does not repeat itself: without it, a list that does not
+// match takes time exponential in the number of sections to find that out.
+// It is used only if what the sections match does not depend on the matches
+// made before.
+func (m SliceDotsMatcher) matchSections(k int, got []reflect.Value, d data.Data, r Region, idx int, failed map[[2]int]struct{}) (data.Data, bool) {
 	if k == len(m.Sections) {
 		return d, idx == len(got)
 	}
-	return findSection(m.Dots[k-1], m.Sections[k], got, d, r, idx, func(newIdx int, d data.Data) (data.Data, bool) {
-		return m.matchSections(k+1, got, d, r, newIdx)
+	if _, ok := failed[[2]int{k, idx}]; ok {
+		return d, false
+	}
+	newD, ok := findSection(m.Dots[k-1], m.Sections[k], got, d, r, idx, func(newIdx int, d data.Data) (data.Data, bool) {
+		return m.matchSections(k+1, got, d, r, newIdx, failed)
 	})
+	if !ok && failed != nil {
+		failed[[2]int{k, idx}] = struct{}{}
+	}
+	return newD, ok
 }
 
 // Returns Region for items[start:end].
